@@ -23,10 +23,10 @@ AllDigits(s)  == \A i \in 1..Len(s) : IsDigit(s[i])
 AllHex(s)     == \A i \in 1..Len(s) : IsHexDigit(s[i])
 
 (* first index of byte d in s at or after position from; 0 if none *)
+Index(s, d) == SelectInSeq(s, LAMBDA x : x = d)
 IndexFrom(s, d, from) ==
-    LET hits == {i \in from..Len(s) : s[i] = d} IN
-    IF hits = {} THEN 0 ELSE CHOOSE i \in hits : \A j \in hits : i <= j
-Index(s, d) == IndexFrom(s, d, 1)
+    LET k == SelectInSeq(SubSeq(s, from, Len(s)), LAMBDA x : x = d) IN
+    IF k = 0 THEN 0 ELSE k + from - 1
 Count(s, d) == Cardinality({i \in 1..Len(s) : s[i] = d})
 Drop(s, n)  == SubSeq(s, n + 1, Len(s))       \* s[n:]
 Take(s, n)  == SubSeq(s, 1, Min2(n, Len(s)))  \* s[:n]
@@ -65,7 +65,7 @@ Huge == 2000000000
 StripZeros(s) == LET nz == {i \in 1..Len(s) : s[i] # 48} IN
                  IF nz = {} THEN <<>> ELSE SubSeq(s, CHOOSE i \in nz : \A j \in nz : i <= j, Len(s))
 ToNat(s) == LET z == StripZeros(s) IN
-            IF Len(z) > 9 THEN Huge
+            IF Len(z) > 10 \/ (Len(z) = 10 /\ z[1] >= 50) THEN Huge
             ELSE FoldLeft(LAMBDA acc, c : acc * 10 + (c - 48), 0, z)
 
 (* lower-case hex rendering of a byte string and its strict inverse *)
